@@ -8,7 +8,7 @@ def T(shards, checks, **kw):
 PROPS = {
     "C14": {
         "pkg": "hpure", "test": "TestC14", "replay_test": "TestC14_Replay", "level": "exploration",
-        "quick": T(16, 1500), "thorough": T(16, 300000, timeout=5000),
+        "quick": T(16, 1500), "thorough": T(16, 100000, timeout=5000),
         "rule": "rapid-generated histories of Receive/ClearMsgs/sleep over 1..3 Packers sharing the global memory budget, thresholds "
                 "(count 1..6, size 1/2/512 KB, age 1 ms/off, memory 1..64 KB) and message sizes drawn around them, callback failing at drawn flushes; "
                 "oracle = per-packer pending-list model (exactly-once, in order, error propagated, forced flush on deterministic thresholds, counter zero when empty). "
@@ -19,7 +19,7 @@ PROPS = {
     "C16": {
         "pkg": "hpure", "test": "TestC16", "replay_test": "TestC16_Replay", "level": "exploration",
         "quick": T(8, 0, fixed=["TestC16_Exhaustive"], timeout=900, tests=[{"test": "TestC16", "checks": 3000}, {"test": "TestC16_Manager", "checks": 40, "pkg": "hreader", "shards": 16}]),
-        "thorough": T(16, 0, fixed=["TestC16_Exhaustive"], timeout=7000, tests=[{"test": "TestC16", "checks": 300000}, {"test": "TestC16_Manager", "checks": 1200, "pkg": "hreader"}]),
+        "thorough": T(16, 0, fixed=["TestC16_Exhaustive"], timeout=7000, tests=[{"test": "TestC16", "checks": 150000}, {"test": "TestC16_Manager", "checks": 1200, "pkg": "hreader"}]),
         "rule": "layer 1: real util.ChannelMapping driven by the manager's direct-assignment protocol over counts 0..6 x 0..6 and random offer sequences (rapid), "
                 "plus exhaustive enumeration of all offer sequences of length 5 (quick) / 6 (thorough) for counts 1..3 x 1..3; oracle on public queries: function, stability, "
                 "quota ceil(larger/smaller) (1-to-1 for equal counts), assignment iff quota free. non-trivial = at least one offer refused by the quota after >= 2 assignments; distinct = distinct (counts, offer sequence)",
@@ -27,7 +27,7 @@ PROPS = {
     },
     "C17": {
         "pkg": "hpure", "test": "TestC17", "replay_test": "TestC17_Replay", "level": "exploration",
-        "quick": T(16, 1500), "thorough": T(16, 300000, timeout=5000),
+        "quick": T(16, 1500), "thorough": T(16, 100000, timeout=5000),
         "rule": "rapid state machine over the real ReplicateMeteImpl with a JSON-round-tripping in-memory store: report(task,msg,1..2 shards) / remove / reload over 3 tasks (ids in prefix relation) x 1..3 messages "
                 "(collection and partition kind, 1..4 target shards); oracle after every step: store == memory == model (union of reports), ready iff union == target. "
                 "non-trivial = some message received >= 3 reports, or a reload happened while a message was partially reported; distinct = distinct history",
@@ -35,7 +35,7 @@ PROPS = {
     },
     "C07": {
         "pkg": "hwriter", "test": "TestC07", "level": "exploration",
-        "quick": T(16, 400), "thorough": T(16, 100000, timeout=5000),
+        "quick": T(16, 400), "thorough": T(16, 60000, timeout=5000),
         "rule": "rapid-generated packs (1..5 messages + closing tick) of insert (0..12 rows, 1..3 columns of int64/varchar/float/bool/float-vector/binary-vector/json), delete (int or string PKs), "
                 "drop-collection, drop-partition, import, tick with self-consistent timestamps; 1..4 concurrent HandleReplicateMessage calls on different channels; replicate id on/off; 5 name-mapping shapes; "
                 "downstream answering ok / error / undecodable position. Oracle: every serialized message decoded the way the Milvus proxy does (MsgHeader -> type -> ProtoUDFactory dispatcher) is proto.Equal "
@@ -45,7 +45,7 @@ PROPS = {
     },
     "C08": {
         "pkg": "hwriter", "test": "TestC08", "replay_test": "TestC08_Replay", "level": "exploration",
-        "quick": T(16, 1500, fixed=["TestC08_Table"]), "thorough": T(16, 300000, fixed=["TestC08_Table"], timeout=5000),
+        "quick": T(16, 1500, fixed=["TestC08_Table"]), "thorough": T(16, 150000, fixed=["TestC08_Table"], timeout=5000),
         "rule": "part 1 (exhaustive): decision function over all triples of 11 magnitudes x 4 presence combinations against a table derived from the statement. "
                 "part 2 (rapid): source timelines over 2 databases x 2 collections x 1 partition (create/op/drop/re-create, 6 collection op kinds, 2 partition op kinds, db create/drop); "
                 "API-event stream and op stream keep their own order and are merged arbitrarily; the run ends at the first not-ready error (the task would pause); then restart with the drop-horizon table "
@@ -56,7 +56,7 @@ PROPS = {
     },
     "C09": {
         "pkg": "hwriter", "test": "TestC09(_DML|_Bookkeeping)?", "ntests": 3, "level": "exploration",
-        "quick": T(16, 700), "thorough": T(16, 150000, timeout=5000),
+        "quick": T(16, 700), "thorough": T(16, 80000, timeout=5000),
         "rule": "bookkeeping clause (TestC09_Bookkeeping): after a replicated drop-collection event at source time T an older operation on the same source names must be skipped and an operation on an unrelated source collection called like the mapped name must be executed. rapid over the product {18 op-message kinds, 4 API events (TestC09), 5 DML message kinds (TestC09_DML), readiness probes} x source db {'', default, db1} x mapping shape "
                 "{none, exact, whole-db, unrelated, exact+whole-db for the same db} x downstream ok/failing; expected names from a 6-line reference mapping; routing db (ReplicateParam.Database), "
                 "request name fields and names inside serialized DML are compared. non-trivial = the mapping changes the database and the operation is collection-scoped; distinct = distinct (kind, names, mapping, contents)",
@@ -65,7 +65,7 @@ PROPS = {
     },
     "C20": {
         "pkg": "hwriter", "test": "TestC20(_Malformed)?", "ntests": 2, "replay_test": "TestC20_Replay", "level": "exploration",
-        "quick": T(16, 700), "thorough": T(16, 150000, timeout=5000),
+        "quick": T(16, 700), "thorough": T(16, 80000, timeout=5000),
         "rule": "rapid over 18 op kinds and 4 API events with arbitrary identifiers, index params, partition lists with members recorded as dropped, replica numbers, resource groups, user/role/privilege tuples, "
                 "valid/invalid password encodings, schemas with 1..5 user fields (+dynamic field), shard number, consistency level, properties; plus malformed packs. Oracle: exactly one downstream request of the "
                 "corresponding kind, deep comparison with the source (names excluded: C09), replication stamp = pack end-position time / event time, dropped partitions removed in order, malformed pack -> error and zero calls. "
@@ -215,8 +215,9 @@ PROPS = {
     },
     "C05": {
         "pkg": "hserver", "test": "TestC05", "level": "exploration",
-        "quick": T(16, 5, timeout=1500), "thorough": T(16, 150, timeout=14000),
-        "rule": "full in-process service (real MetaCDC, reader, batcher, writer, SDK, meta store on a real etcd; fake MQ under the real msgstream / dispatcher; fake downstream that remembers what it accepted): collections ca (2 shards) and cb (1 shard) share source and target channels, one task for both or one each, batch size 1..4; "
+        "quick": T(16, 0, timeout=1500, tests=[{"test": "TestC05", "checks": 5}, {"test": "TestC05_Drop", "checks": 2}]),
+        "thorough": T(16, 0, timeout=14000, tests=[{"test": "TestC05", "checks": 150}, {"test": "TestC05_Drop", "checks": 40}]),
+        "rule": "TestC05_Drop (frozen clause): one task replicates ca and cb, cb is dropped upstream (catalog state and drop message), after the drop has been replayed downstream the checkpoint record of cb must be marked dropped and stay byte-identical under further traffic, pause/resume or restart (store monitor at every write + end comparison), and the drop is requested exactly once. TestC05: full in-process service (real MetaCDC, reader, batcher, writer, SDK, meta store on a real etcd; fake MQ under the real msgstream / dispatcher; fake downstream that remembers what it accepted): collections ca (2 shards) and cb (1 shard) share source and target channels, one task for both or one each, batch size 1..4; "
                 "a generated script of 4..14 steps mixes row production on drawn streams (drawn tick cadence) with faults: downstream rejects the next data write, store rejects the next checkpoint write, pause/resume of a drawn task, and crashes - the incarnation is killed (store and streams fenced) inside the next data write before it takes effect, "
                 "right after it took effect (acknowledged but not checkpointed) or right after the next checkpoint write - each followed later by a restart (ReloadTask from the persisted state). "
                 "Monitor (a): at every checkpoint write, seen in the store decorator before it is applied, every counted row of that collection and channel with message index <= the checkpoint's index has already been accepted downstream. "
